@@ -122,9 +122,7 @@ def chk_non_empty(
     The function raises an EmptyProcError if no input ports still exist.
 
     """
-    if not more_itertools.first_true(
-        in_ports, pred=basics.Self(processor)(basics.in_)
-    ):
+    if not any(port in processor for port in in_ports):
         raise exception.EmptyProcError("No input ports found")
 
 
